@@ -244,6 +244,8 @@ func (c *tsmMergeCursor) ReInit(
 	c.outOrderRecIter.reset()
 	c.locations.Reset()
 	c.outOfOrderLocations.Reset()
+	// the locations belong to another series now: Next must sort them and read the out-of-order data again
+	c.locationInit = false
 	if err := c.AddLoc(); err != nil {
 		return false, err
 	}
@@ -270,6 +272,8 @@ func (c *tsmMergeCursor) ReInitWithShard(
 	c.outOrderRecIter.reset()
 	c.locations.Reset()
 	c.outOfOrderLocations.Reset()
+	// the locations belong to another series now: Next must sort them and read the out-of-order data again
+	c.locationInit = false
 	if !crossShard {
 		if err := c.AddLoc(); err != nil {
 			return false, err
